@@ -252,10 +252,7 @@ func createCompiledRouteHandler(route *ast.Route, bytecode []byte, wsHub *websoc
 		// Unwrap status-carrying results from guards and `> value :: N`
 		// (see compiler.StatusKey).
 		if body, status, ok := unwrapStatusResult(result); ok {
-			ctx.StatusCode = status
-			ctx.ResponseWriter.Header().Set("Content-Type", "application/json")
-			ctx.ResponseWriter.WriteHeader(status)
-			return json.NewEncoder(ctx.ResponseWriter).Encode(body)
+			return writeJSONWithStatus(ctx, status, body)
 		}
 
 		// Check the result against the declared return type, as the
@@ -360,13 +357,29 @@ func createRouteHandler(route *ast.Route, interp *interpreter.Interpreter) serve
 
 		// Default JSON response, honoring the interpreter's status code
 		// (guards and `> value :: N` set non-200 values).
+		if response.StatusCode != http.StatusOK {
+			return writeJSONWithStatus(ctx, response.StatusCode, response.Body)
+		}
 		ctx.StatusCode = response.StatusCode
 		ctx.ResponseWriter.Header().Set("Content-Type", "application/json")
-		if response.StatusCode != http.StatusOK {
-			ctx.ResponseWriter.WriteHeader(response.StatusCode)
-		}
 		return json.NewEncoder(ctx.ResponseWriter).Encode(response.Body)
 	}
+}
+
+// writeJSONWithStatus answers with a status the program chose (a guard, or
+// `> value :: 201`). The body is encoded before the status line is written:
+// once WriteHeader has run, a value with no JSON form (NaN, say) could only
+// be reported as the generic error body under the program's 2xx status.
+func writeJSONWithStatus(ctx *server.Context, status int, body interface{}) error {
+	data, err := json.Marshal(body)
+	if err != nil {
+		return writeInternalError(ctx, fmt.Errorf("response has no JSON form: %w", err))
+	}
+	ctx.StatusCode = status
+	ctx.ResponseWriter.Header().Set("Content-Type", "application/json")
+	ctx.ResponseWriter.WriteHeader(status)
+	_, err = ctx.ResponseWriter.Write(append(data, '\n'))
+	return err
 }
 
 // executeRoute executes a route's body and returns the full interpreter response.
